@@ -227,6 +227,39 @@ func Infra(format string, a ...any) {
 	mu.Unlock()
 }
 
+var (
+	knownOnce sync.Once
+	knownSigs map[string]bool
+)
+
+// IsKnown reports whether sig is listed with kind "known" for this property in
+// known_findings.json (VERIF_KNOWN). The file is read-only for the checks.
+func IsKnown(sig string) bool {
+	knownOnce.Do(func() {
+		knownSigs = map[string]bool{}
+		b, err := os.ReadFile(env("VERIF_KNOWN", "/verif/known_findings.json"))
+		if err != nil {
+			return
+		}
+		var f struct {
+			Findings []struct {
+				Property string `json:"property"`
+				Kind     string `json:"kind"`
+				Sig      string `json:"sig"`
+			} `json:"findings"`
+		}
+		if json.Unmarshal(b, &f) != nil {
+			return
+		}
+		for _, k := range f.Findings {
+			if k.Property == Prop() && k.Kind == "known" {
+				knownSigs[k.Sig] = true
+			}
+		}
+	})
+	return knownSigs[sig]
+}
+
 // KnownFinding counts an occurrence of a finding listed in known_findings.json.
 func KnownFinding(sig, what string) {
 	mu.Lock()
